@@ -210,6 +210,18 @@ def main(argv=None):
                                    note=r.get("note"), path=r.get("path")),
                        concrete=conc), open(path, "w"), indent=1, default=str)
         violations.append((path, bool(conc and conc.get("found"))))
+    if fn_undec and not violations:
+        # a function left the verifiable subset: its contract is undecided; a bounded native search stands in (labelled bounded).
+        # Only a concrete failing input replayed on the real code turns this into a violation.
+        try:
+            conc = replay.concretise(pid, dict(id="undecided", model=None), tier, seed)
+        except Exception:
+            conc = dict(found=False, error=traceback.format_exc())
+        if conc and conc.get("found"):
+            path = os.path.join(ROOT, "replays", pid, "bounded_fallback_for_undecided_function.json")
+            json.dump(dict(property=pid, obligation="bounded stand-in (function outside the verifiable subset: " + "; ".join(f"{k}: {u[0]}" for k, u in fn_undec.items()) + ")",
+                           concrete=conc), open(path, "w"), indent=1, default=str)
+            violations.append((path, True))
     for bv in bounded_viol:
         kf = next((f for f in known if f.get("witness_id") and f["witness_id"] == bv.get("witness_id")), None)
         if kf is not None:
